@@ -14,7 +14,7 @@ import ast
 import re as _re
 import itertools
 
-from .model import (AnalysisError, ClassInfo, FuncInfo, Const, External, Module,
+from .model import (walk_no_nested, AnalysisError, ClassInfo, FuncInfo, Const, External, Module,
                     unparse, dotted)
 
 
@@ -739,6 +739,28 @@ class Evaluator:
                         return self.getattr(o, a, node)
                     except Unsupported:
                         return self.ev(node.args[2])
+            if f.id == "setattr" and len(node.args) == 3 and \
+                    not node.keywords:
+                # setattr(o, "name", v) is the statement o.name = v
+                o = self.ev(node.args[0])
+                a = self.ev(node.args[1])
+                v = self.ev(node.args[2])
+                if isinstance(a, str) and a.isidentifier():
+                    ho, hv = "$setattr_o%d" % id(node), \
+                        "$setattr_v%d" % id(node)
+                    self.env[ho], self.env[hv] = o, v
+                    one = ast.Assign(
+                        targets=[ast.Attribute(
+                            value=ast.Name(id=ho, ctx=ast.Load()), attr=a,
+                            ctx=ast.Store())],
+                        value=ast.Name(id=hv, ctx=ast.Load()))
+                    ast.copy_location(one, node)
+                    ast.fix_missing_locations(one)
+                    try:
+                        self.stmt(one)
+                    finally:
+                        del self.env[ho], self.env[hv]
+                    return None
             if f.id == "hasattr" and len(node.args) == 2:
                 o = self.ev(node.args[0])
                 a = self.ev(node.args[1])
@@ -1107,6 +1129,11 @@ class Evaluator:
         sub.func = func
         sub.self_name = names[0] if (names and func.has_self) else None
         kind, val = sub.run(func.node.body, reraise=True)
+        if any(isinstance(n, (ast.Yield, ast.YieldFrom))
+               for n in walk_no_nested(func.node)):
+            # a generator function: evaluated eagerly into the list of the
+            # values it yields (as nested generators are)
+            return list(sub.env.get("$yield", []))
         return val
 
     # ---- statements
